@@ -23,6 +23,7 @@ partial (see notes/C12.md).
 -/
 import SqiProofs.ThetaChain
 import SqiProofs.ThetaBalanced
+import SqiModel.SkelTheta
 import SqiProps.C18
 
 set_option maxRecDepth 100000
@@ -60,6 +61,22 @@ theorem short_chain_faults :
   · simp [chain, Params.m, Params.adj, prelude, phase1, setLenList, buildPts, glueStep, forLoop, finalSteps, initSt,
       idxOK, St.emit, St.fail, Params.kexp]
   · simp [chain, St.fail, initSt]
+
+/-! ## the integer skeletons re-extracted from the C text (tools/translate/chainskel.py → `SqiGen.ChainSkel`)
+
+`SqiGen.ChainSkel.theta_chain_comput_strategy` and `…_faster_no_eval` are the slices of the two C functions over their
+integer state (adjusting, len_count, index, len_list, level[], i, j, the reads `strategy[…]`, loop headers, branch
+conditions); every theta / point statement is an opaque event carrying the array slots it touches
+(points1/2, Q1/2, out->steps), interpreted by the order-tracking observer `SqiModel.SkelTheta.obs`.
+Tie skeleton ↔ hand model (the object of `chain_strategy_sound`):
+  * `skeleton_agrees_small` (kernel): on small strategies of every shape, both routines, both modes, valid and invalid:
+    same fault status, final index / len_list, iterated doublings (array, slot, count), step indices, kernel exponents —
+    an off-by-one in the level[] / len_count / index bookkeeping of the C text breaks this obligation;
+  * every row of the three real tables × both routines × both modes: the same comparison executed on every check run
+    (driver op `skel.theta`).
+A per-loop simulation proof for all inputs is not done (fallback, as for C09). -/
+
+theorem skeleton_agrees_small : SqiModel.SkelTheta.smallAllAgree = true := by decide +kernel
 
 /-! ## the balanced variant `theta_chain_comput_balanced` / `theta_chain_comput_rec` -/
 
